@@ -13,8 +13,9 @@ func main() {
 		Rule: "Three strata, case index determines stratum. (gate) every ordered pair (endpoint update parked at hook H2 between shard lookup and shard lock) x (concurrent op of another/same registry: " +
 			"delete-service, delete-shard, prune, empty update, update) x initial shard population, enumerated; (stress) PRNG histories of 3-6 registries and readers on a real " +
 			"EndpointIndex with PRNG yields at the gate; both recorded at the call boundary with a logical clock and checked with porcupine against map[service]map[shard]->update id; " +
-			"(eds) PRNG shard contents/subsets/health/locality/network worlds where the real EDS generator output is compared with a reference membership function. " +
-			"Non-trivial: gate case where the update really parked at the gate (the other op then either ran inside the window or blocked until release - both counted); stress history with >=2 registries overlapping in logical time on one service; eds world with >=1 endpoint filtered out and >=1 kept. Distinct by hash of the op list / world.",
+			"(eds) PRNG shard contents/subsets/health/locality/network worlds where the real EDS generator output is compared with a reference membership function; " +
+			"(seq) sequences of 8-17 registry reports on one index with a warm endpoint cache, each an edit of the previous report (removals, brand-new endpoints of any health, health flips, label/weight/locality edits in ONE report): after every report generator-with-warm-cache and uncached builder must serve the reference membership of the new latest reports, and the returned push type must not be NoPush when the reference says what some proxy is served changed. " +
+			"Non-trivial: gate case where the update really parked at the gate (the other op then either ran inside the window or blocked until release - both counted); stress history with >=2 registries overlapping in logical time on one service; eds world with >=1 endpoint filtered out and >=1 kept; seq case with >=1 report that changes what is served and >=1 report answered with NoPush. Distinct by hash of the op list / world.",
 		Assumptions: []string{
 			"porcupine v1.3.0 decides linearizability of the recorded history (timeouts => inconclusive)",
 			"reads identify the write they observed because every update carries a unique id in its endpoints",
@@ -33,4 +34,5 @@ func run(c *vh.Ctx) {
 	runGatePairs(c)
 	runStress(c)
 	runEDS(c)
+	runSeq(c)
 }
